@@ -177,6 +177,20 @@ CLAIMED = {
             '§6 C19',
             'partial: "everything else is identical" is a differential observation over generated inputs; open types are not generated',
             'Coq proof (derive merging, From-impl filter) + regenerated constants + differential compilation across configurations'),
+    'C02': ('proof',
+            'Theorems for any number of components before and after the extension marker: a SEQUENCE / SET yields exactly one field, a '
+            'CHOICE exactly one variant, per component, in source order, with the converted name and the written type (in-place types under '
+            'the inner name, references title-cased and module-qualified, SequenceOf/SetOf around the element), wrapped in Option<_> exactly '
+            'for OPTIONAL (and extension groups), with a default function exactly for DEFAULT, marked as extension addition exactly when '
+            'written after the marker, boxed when recursive; nothing added, dropped, duplicated or reordered. The plain-member hypothesis '
+            'is shown necessary (COMPONENTS OF in the root shifts the index: refuted = known finding). Hand model of the list assembly '
+            'and of the member formatter over the C16 name conversions, tied by correspondence: the projected fields / variants of the '
+            'type and of every in-place type below it compared with the model inside Coq; SET markers, default functions and in-place '
+            'ENUMERATEDs checked on the projection',
+            '§6 C02',
+            'partial: the parser delivering the component lists in source order and the hoisting of in-place types are covered by the '
+            'correspondence only; the Rust token of constrained INTEGER components comes from a fixed table (C06); one known finding',
+            'Coq proof (list induction over the component lists) + differential correspondence on syn projections'),
     'C08': ('proof',
             'partial. Proved for every input: the nestable-comment scanner never slices out of range; the error-excerpt arithmetic '
             '(until_next_unindented, contextualize) stays in range and on character boundaries for every report the position '
